@@ -135,3 +135,27 @@ Definition est_ok (c : shadow_case) : bool :=
   ok_returns (sc_tree c) (map (fun o => fst (fst o)) (sc_obs c))
   && forallb (fun b => b) (sc_errno c)
   && forallb (fun o => forallb (fun w => negb (is_tramp w)) (tl (snd o))) (sc_obs c).
+
+(* thread-schedule case: call trees per thread, the interleaved (thread, operation) list the driver sent,
+   per step what libmcount did in that thread *)
+Fixpoint run_sched_trace (n : nat) (ss : nat -> st) (sched : list (nat * op)) : list (out * nat * list word) :=
+  match sched with
+  | [] => []
+  | (t, o) :: r => let '(s1, u) := run_op (ss t) o in
+                   (u, List.length (rs s1), snapshot n s1) :: run_sched_trace n (tupd ss t s1) r
+  end.
+Record sched_case := {
+  sd_trees : list (nat * call);
+  sd_sched : list (nat * op);
+  sd_obs : list (out * nat * list word);
+  sd_errno : list bool;
+  sd_nslots : nat
+}.
+Definition sched_agrees (c : sched_case) : bool :=
+  forallb (fun tc => list_eqb op_eqb (proj (fst tc) (sd_sched c)) (full 1 (snd tc))) (sd_trees c)
+  && list_eqb obs_eqb (run_sched_trace (sd_nslots c) (fun _ => st0) (sd_sched c)) (sd_obs c).
+Definition sched_ok (c : sched_case) : bool :=
+  forallb (fun tc => ok_returns (snd tc)
+                       (proj (fst tc) (combine (map fst (sd_sched c)) (map (fun o => fst (fst o)) (sd_obs c)))))
+          (sd_trees c)
+  && forallb (fun b => b) (sd_errno c).
